@@ -139,4 +139,61 @@ def Env.idOf (env : Env) (name : String) : Option Nat :=
     | d :: rest => if d.name == name then some i else go rest (i + 1)
   go env 0
 
+/-! ### which types hold a shared reference to a given struct
+
+`holdsRefTo target` is a purely syntactic reachability predicate over the struct table: the type
+contains — by value, through std containers, references, tuples or the fields of other table
+structs, but *not* through one of its own type parameters — a shared reference `&target<…>`.
+Property C20 uses it with `target = WengertList`: everything that carries a tape reference. -/
+
+def holdsRefTo (target : Nat) : Nat → Env → Ty → Bool
+  | 0, _, _ => false
+  | fuel + 1, env, ty =>
+    let go := holdsRefTo target fuel env
+    match ty with
+    | .ref (.adt id args) => id == target || go (.adt id args)
+    | .ref t | .mutRef t | .slice t | .array t | .vec t | .option t | .box t | .range t
+    | .refCell t | .cell t | .arc t | .mutex t => go t
+    | .tuple ts => ts.any go
+    | .adt id _ =>
+      match env[id]? with
+      | some d => d.fields.any go
+      | none => false
+    | _ => false
+
+/-- the table struct number `id` holds a reference to `target` in one of its fields -/
+def structHoldsRefTo (env : Env) (target id : Nat) : Bool :=
+  match env[id]? with
+  | some d => d.fields.any (holdsRefTo target defaultFuel env)
+  | none => false
+
+/-- all assignments of `Send`/`Sync` flags to `n` type parameters -/
+def allFlags : Nat → List (List Flags)
+  | 0 => [[]]
+  | n + 1 => (allFlags n).flatMap fun fl =>
+      [(true, true) :: fl, (true, false) :: fl, (false, true) :: fl, (false, false) :: fl]
+
+/-- `id` applied to opaque arguments with the given flags -/
+def instantiate (id : Nat) (fl : List Flags) : Ty := .adt id (fl.map fun f => .leaf f.1 f.2)
+
+/-- pointwise order on flag assignments (`false ≤ true`) -/
+def Flags.le (a b : Flags) : Bool := (!a.1 || b.1) && (!a.2 || b.2)
+
+def flagsLe : List Flags → List Flags → Bool
+  | [], [] => true
+  | a :: as, b :: bs => a.le b && flagsLe as bs
+  | _, _ => false
+
+/-- the assignments obtained from `fl` by raising exactly one `false` flag of one parameter to `true` -/
+def raiseOne : List Flags → List (List Flags)
+  | [] => []
+  | (a, b) :: rest =>
+    (if a then [] else [(true, b) :: rest]) ++ (if b then [] else [(a, true) :: rest]) ++
+      (raiseOne rest).map fun r => (a, b) :: r
+
+/-- `some false ≤ some true`; an undecided verdict is below / above nothing -/
+def verdictLe : Option Bool → Option Bool → Bool
+  | some a, some b => !a || b
+  | _, _ => false
+
 end EasyMl.Auto
